@@ -21,7 +21,49 @@ pub fn alphabet() -> Vec<(char, Spell)> {
         ('a', Spell::Raw), ('é', Spell::Raw), ('日', Spell::Raw), ('🙂', Spell::Raw), ('\\', Spell::Esc), ('"', Spell::Esc), ('$', Spell::Esc),
         ('\n', Spell::Esc), ('\r', Spell::Esc), ('A', Spell::Hex), ('{', Spell::Raw), ('}', Spell::Raw), ('[', Spell::Raw), (' ', Spell::Raw),
         ('\n', Spell::Raw), ('$', Spell::Hex), ('\\', Spell::Hex), ('"', Spell::Hex), ('\t', Spell::Raw), ('\u{7f}', Spell::Hex), ('ß', Spell::Raw),
+        // Code points whose last byte is that of `{`, `}`, `"`, `$`.
+        ('Ż', Spell::Raw), ('Ž', Spell::Raw), ('Ģ', Spell::Raw), ('🍻', Spell::Raw),
     ]
+}
+
+// Any Unicode scalar value that may stand unescaped in a literal, with the
+// planes weighted equally, plus U+0080..U+00FF written as `\xHH`.
+fn random_symbol(t: &mut Tape) -> (char, Spell) {
+    loop {
+        let cp = match t.pick(6) {
+            0 => 0x80 + t.pick(0x80) as u32,
+            1 => 0x100 + t.pick(0x700) as u32,
+            2 => 0x800 + ((t.raw() as u32) % 0xF800),
+            3 => 0x10000 + (((t.raw() as u32) << 4 | t.pick(16) as u32) % 0x100000),
+            4 => {
+                // Last byte equal to a structural ASCII character.
+                let low = [0x7b, 0x7d, 0x22, 0x24, 0x5c, 0x0a, 0x28, 0x29, 0x5b, 0x5d, 0x23, 0x3b, 0x20][t.pick(13)];
+                let high = [0x100u32, 0x300, 0x1200, 0x4e00, 0x1f300, 0x1f600, 0x20000, 0xe0100][t.pick(8)];
+                high + low
+            },
+            _ => 0x20 + t.pick(0x5f) as u32,
+        };
+        if let Some(c) = char::from_u32(cp) {
+            if c == '"' || c == '\\' || c == '$' {
+                return (c, Spell::Esc);
+            }
+            if (0x80..0x100).contains(&cp) && t.chance(1, 2) {
+                return (c, Spell::HexLatin);
+            }
+            return (c, Spell::Raw);
+        }
+    }
+}
+
+fn has_hex_latin(parts: &[StrPart]) -> bool {
+    parts.iter().any(|p| match p {
+        StrPart::Text(t) => t.iter().any(|(_, s)| *s == Spell::HexLatin),
+        StrPart::Slot(e) => match &e.k {
+            EK::Str(t) => t.iter().any(|(_, s)| *s == Spell::HexLatin),
+            EK::Call(_, args) => args.iter().any(|a| matches!(&a.e.k, EK::Str(t) if t.iter().any(|(_, s)| *s == Spell::HexLatin))),
+            _ => false,
+        },
+    })
 }
 
 // String-typed slot expressions (the prelude declares what they use).
@@ -43,6 +85,10 @@ fn slot_exprs() -> Vec<(&'static str, Expr)> {
         ("literal with escapes", ex(EK::Str(vec![('q', Spell::Raw), ('"', Spell::Esc), ('\\', Spell::Esc), ('n', Spell::Raw)]))),
         ("literal ending in a backslash", ex(EK::Str(vec![('C', Spell::Raw), (':', Spell::Raw), ('\\', Spell::Esc)]))),
         ("backslash alone", ex(EK::Str(vec![('\\', Spell::Esc)]))),
+        ("literal with brace-byte characters", string("ŻoŽ")),
+        ("call with a brace-byte literal", call(var("id"), vec![string("Žofie")])),
+        ("literal with emoji ending in brace bytes", bin(Op::Sum, string("🍻"), string("a🍽"))),
+        ("literal with quote- and dollar-byte characters", string("ĢŜĤĊ")),
         ("call with a backslash literal", call(var("id"), vec![bin(Op::Sum, ex(EK::Str(vec![('\\', Spell::Esc)])), ex(EK::Str(vec![('"', Spell::Esc), ('\\', Spell::Esc)])))])),
     ]
 }
@@ -118,7 +164,11 @@ fn interp_cases(ctx: &Ctx, parts: Vec<StrPart>, note: &str) -> Vec<(Case, bool)>
     let ra = interp::run(&pa);
     let (sa, sb) = (print::print_canonical(&pa), print::print_canonical(&pb));
     let mut out = vec![];
-    if let Some(e) = ref_expect(&sa, &ra, DiagLevel::None) {
+    // What `\xHH` with HH >= 80 denotes is not stated: such literals are only
+    // held to "interpolation == concatenation" (and to not crashing).
+    if has_hex_latin(&parts) {
+        ctx.label("interpolation: high hex escape (relation only)");
+    } else if let Some(e) = ref_expect(&sa, &ra, DiagLevel::None) {
         ctx.label(if ra.is_ok() { "interpolation: value" } else { "interpolation: reported error" });
         out.push((Case{property: "C15".into(), kind: "interpolation".into(), srcs: vec![sa.src.clone().into_bytes()], pred: Pred::Expect(e), note: note.to_string()}, nt));
     }
@@ -169,11 +219,29 @@ fn random_parts(t: &mut Tape) -> Vec<StrPart> {
         let n = t.pick(5);
         let mut tx = vec![];
         for _ in 0..n {
-            tx.push(al[t.pick(al.len())]);
+            tx.push(if t.chance(1, 3) { random_symbol(t) } else { al[t.pick(al.len())] });
         }
         parts.push(StrPart::Text(tx));
         if i < n_slots {
-            let e = if t.chance(1, 8) { bad[t.pick(bad.len())].1.clone() } else { slots[t.pick(slots.len())].1.clone() };
+            let e = match t.pick(8) {
+                0 => bad[t.pick(bad.len())].1.clone(),
+                1 | 2 => {
+                    // A literal of random code points inside the slot, bare or
+                    // as an argument (braces are excluded: the slot scanner
+                    // counts them even inside a nested literal).
+                    let k = 1 + t.pick(3);
+                    let mut cs = vec![];
+                    for _ in 0..k {
+                        let s = random_symbol(t);
+                        if s.0 != '{' && s.0 != '}' {
+                            cs.push(s);
+                        }
+                    }
+                    let lit = ex(EK::Str(cs));
+                    if t.chance(1, 2) { lit } else { call(var("id"), vec![lit]) }
+                },
+                _ => slots[t.pick(slots.len())].1.clone(),
+            };
             parts.push(StrPart::Slot(Box::new(e)));
         }
     }
@@ -257,6 +325,35 @@ fn lexical_errors(ctx: &Ctx) -> Vec<(Case, bool)> {
     out
 }
 
+// Literals beyond the small scope: text of several hundred bytes before,
+// between and inside slots, and a dozen slots.
+fn large_literals(ctx: &Ctx) -> Vec<(Case, bool)> {
+    let slots = slot_exprs();
+    let mut out = vec![];
+    for unit in ["abcdefgh", "é", "日本🙂x", "q\\\"$"] {
+        for reps in [33usize, 64, 130, 300] {
+            let tx: Vec<(char, Spell)> = unit.repeat(reps).chars().map(|c| (c, natural_spell(c))).collect();
+            for (k, (_, se)) in slots.iter().enumerate().filter(|(k, _)| k % 4 == reps % 4) {
+                let parts = vec![text(&tx), StrPart::Slot(Box::new(se.clone())), text(&tx[..tx.len().min(7)]), StrPart::Slot(Box::new(slots[(k + 5) % slots.len()].1.clone())), text(&tx)];
+                out.extend(interp_cases(ctx, parts, "long text around slots"));
+            }
+        }
+    }
+    // Twelve slots in one literal.
+    let mut parts = vec![];
+    for k in 0..12 {
+        parts.push(text(&[('<', Spell::Raw), (char::from_digit(k % 10, 10).unwrap(), Spell::Raw), ('é', Spell::Raw)]));
+        parts.push(StrPart::Slot(Box::new(slots[k as usize % slots.len()].1.clone())));
+    }
+    parts.push(text(&[('>', Spell::Raw)]));
+    out.extend(interp_cases(ctx, parts, "twelve slots"));
+    // A long string literal inside a slot.
+    let long_in_slot = ex(EK::Str("né ".repeat(120).chars().map(|c| (c, Spell::Raw)).collect()));
+    out.extend(interp_cases(ctx, vec![text(&[('a', Spell::Raw)]), StrPart::Slot(Box::new(bin(Op::Sum, long_in_slot, var("sv")))), text(&[('z', Spell::Raw)])], "long literal inside a slot"));
+    ctx.label_n("large literals", out.len() as u64);
+    out
+}
+
 pub fn run(ctx: &Ctx) {
     ctx.set_rule("interpolated literals with one slot and every alphabet symbol (or none) on each side, two slots with symbols before / between / after (exhaustive over a 21-symbol alphabet of ASCII, the escapes \\\\ \\\" \\$ \\n \\r \\xHH, raw newline / tab, 2-4 byte characters, braces, brackets), random literals with 0..3 slots; slot expressions: variable, literal, multi-byte literal, concatenation, call, object literal with braces, list literal, nested interpolation, range index, parenthesised, type function, a counter (order-dependent), called function literal, literal with escapes, and non-string / undefined ones; plain literals with print, ->len(), byte-wise for / index / range; invalid escapes, invalid hex digits (incl. non-ASCII characters whose low byte is a hex digit), raw $ and bad slot starts after every prefix symbol; oracle: decoded characters, reference interpreter, interpolation == concatenation (same stdout and outcome), lexical errors at the offending character. Non-trivial = a multi-byte character before or between slots, an escape next to a slot boundary, or a slot containing braces / a nested literal / a call; distinct = distinct source texts");
     ctx.replay_corpus(None);
@@ -265,6 +362,7 @@ pub fn run(ctx: &Ctx) {
     ctx.mark_exhaustive("one-slot literals with every symbol pair around the slot");
     ctx.judge_all(cases, Via::Fast, None);
     ctx.judge_all(lexical_errors(ctx), Via::Cli, None);
+    ctx.judge_all(large_literals(ctx), Via::Cli, None);
     plain_cases(ctx, ctx.n(3_000, 100_000));
     let n = ctx.n(20_000, 600_000);
     let via = if ctx.tier == Tier::Quick { Via::Cli } else { Via::Fast };
